@@ -124,10 +124,11 @@ func (i *Interpreter) evaluateAsyncExpr(expr AsyncExpr, env *Environment) (inter
 	// Create a new Future to represent the pending result
 	future := NewFuture()
 
-	// Create a child environment for the async block
-	// This captures the current scope for use in the goroutine
-	asyncEnv := NewChildEnvironment(env)
-	asyncEnv.depth = new(int64) // the block runs on its own goroutine
+	// The block runs on a snapshot of the current scope, taken now, before the
+	// goroutine starts (as the compiled VM does): a live child scope would be
+	// read by the block while the parent goes on declaring and assigning
+	// variables, which is a concurrent map read and write.
+	asyncEnv := env.snapshot(i.globalEnv)
 
 	// Execute the async block in a separate goroutine
 	go func() {
